@@ -155,15 +155,11 @@ Proof. exact arp_permutation. Qed.
 Print Assumptions C10_arp_arrangement.
 Print Assumptions C10_arp_permutation.
 
-(* OPEN.  The remaining classes of Pat/Step.v have their reference definition in Pat/Ref.v (ref_loop
-   ref_pingpong ref_subsequence ref_reverse ref_pad_to_multiple ref_concatenate ref_collapse ref_norepeats_from
-   ref_counter_from ref_impulse ref_wrap1) and are compared with the implementation on every run (reference
-   interpreter of the harness + model comparison), but the induction is not done.  Full statement, e.g.:
-     forall f c l count, l <> [] -> Den f c (Fin l) -> (0 < count)%nat ->
-       Den (S (S f)) (PLoop (AP c) (VInt (Z.of_nat count)) 0 0 false []) (Fin (ref_loop count l))
-   and likewise PPingPong, PSubsequence,
-   PReverse, PPadToMultiple, PConcatenate, PCollapse, PNoRepeats, PCounter, PImpulse, PWrap, PReset.
-   What is proved here is only that the closed forms and the model agree on one concrete instance of each. *)
+(* OPEN -> closed in Props/C10More.v.  The classes that were listed here — PLoop PPingPong PSubsequence PReverse
+   PPadToMultiple PConcatenate PCollapse PNoRepeats PCounter PImpulse PWrap PReset — now have their closed-form theorems
+   over arbitrary operands there (C10_loop C10_pingpong C10_subsequence C10_reverse C10_pad_to_multiple
+   C10_concatenate C10_collapse C10_norepeats C10_counter C10_impulse C10_wrap C10_reset); nothing is left on the list.
+   The theorem below only records that closed forms and model agree on one concrete instance of each. *)
 Definition outs (fuel n : nat) (e : pexpr) : list (outcome val) :=
   match init Val.binop 100 fuel e with
   | Yield p => fst (outputs Val.binop 100 fuel n p)
